@@ -235,6 +235,9 @@ def plan(tier, seed):
             if rnd.random() < 0.3:
                 e2['mix'] = True
             jobs.append({'prog': wrap_root(e2), 'vars': vars_, 'label': 'single:%s' % (combo,)})
+    if not quick and len(jobs) > 500:
+        # thorough tier: a seeded sample of the single-element grid (the whole grid takes the better part of an hour)
+        jobs = rnd.sample(jobs, 500)
     # class-valued condition (None / default / falsy / truthy classes) on a few shapes
     for cont in (None, ('content', 'text')):
         el, vars_ = element(False, 'cls', False, cont, None, None)
